@@ -30,16 +30,27 @@ def main():
         subprocess.check_call(["rsync", "-a", "--exclude", "target", "--exclude", ".git", "/repo/", scratch + "/"])
         results = []
         for m in muts:
-            p = os.path.join(scratch, m["file"])
-            src = open(p).read()
-            if src.count(m["old"]) != 1:
-                results.append((m["id"], "N/A", "pattern occurs %d times" % src.count(m["old"])))
-                print("%-28s N/A (pattern occurs %d times)" % (m["id"], src.count(m["old"])))
+            edits = m.get("edits") or [{"file": m["file"], "old": m["old"], "new": m["new"]}]
+            saved = {}
+            bad = None
+            for e in edits:
+                p = os.path.join(scratch, e["file"])
+                src = open(p).read()
+                saved.setdefault(p, src)
+                if src.count(e["old"]) != 1:
+                    bad = "pattern occurs %d times in %s" % (src.count(e["old"]), e["file"])
+                    break
+                open(p, "w").write(src.replace(e["old"], e["new"]))
+            if bad:
+                for p, src in saved.items():
+                    open(p, "w").write(src)
+                results.append((m["id"], "N/A", bad))
+                print("%-28s N/A (%s)" % (m["id"], bad))
                 continue
-            open(p, "w").write(src.replace(m["old"], m["new"]))
             env = dict(os.environ, VERIF_REPO=scratch, VERIF_EVIDENCE_DIR=evdir)
             r = subprocess.run([os.path.join(VERIF, "check"), m["property"]], env=env, stdout=subprocess.PIPE, stderr=subprocess.STDOUT, text=True)
-            open(p, "w").write(src)
+            for p, src in saved.items():
+                open(p, "w").write(src)
             out = r.stdout
             if r.returncode == 2:
                 verdict = "BROKEN (does not compile / engine error)"
